@@ -101,29 +101,35 @@ def prepare(tier):
     return True
 
 
+def _env(flavour, use_nvx):
+    env = dict(build_nvx.worker_env(flavour))
+    env["AUTOBAHN_USE_NVX"] = use_nvx
+    if flavour == "asan":
+        # every Python object goes through the ASan allocator (PYTHONMALLOC=malloc): a small quarantine keeps the
+        # MiB-sized payload copies from being page-faulted over and over; redzones/shadow checks are unaffected
+        env["ASAN_OPTIONS"] = env.get("ASAN_OPTIONS", "") + ":quarantine_size_mb=4"
+    return env
+
+
 def shards(tier, seed):
     out = []
     parts = 8 if tier == "quick" else 16
     for fl in ("ship", "asan"):
-        env = build_nvx.worker_env(fl)
-        env["AUTOBAHN_USE_NVX"] = "0"   # websocket.xormasker = pure Python classes; NVX wrapper imported directly
+        env = _env(fl, "0")   # websocket.xormasker = pure Python classes; NVX wrapper imported directly
         for i in range(parts):
             out.append({"name": "masker-%s-%d" % (fl, i), "env": env, "timeout": 1800,
                         "params": {"mode": "masker", "flavour": fl, "part": i, "parts": parts, "tier": tier,
                                    "seed": seed}})
     for fl in ("ship", "asan"):
-        env = build_nvx.worker_env(fl)
-        env["AUTOBAHN_USE_NVX"] = "1"
+        env = _env(fl, "1")
         out.append({"name": "selection-nvx-%s" % fl, "env": env, "timeout": 900,
                     "params": {"mode": "selection", "flavour": fl, "want_nvx": True, "tier": tier, "seed": seed}})
-    env = build_nvx.worker_env("ship")
-    env["AUTOBAHN_USE_NVX"] = "0"
+    env = _env("ship", "0")
     out.append({"name": "selection-pure", "env": env, "timeout": 900,
                 "params": {"mode": "selection", "flavour": "ship", "want_nvx": False, "tier": tier, "seed": seed}})
     for fw in ("tx", "aio"):
         for fl, nvx in (("ship", "0"), ("ship", "1"), ("asan", "1")):
-            env = build_nvx.worker_env(fl)
-            env["AUTOBAHN_USE_NVX"] = nvx
+            env = _env(fl, nvx)
             out.append({"name": "wire-%s-%s-nvx%s" % (fw, fl, nvx), "env": env, "fw": fw, "timeout": 900,
                         "params": {"mode": "wire", "flavour": fl, "fwname": fw, "nvx": nvx, "tier": tier,
                                    "seed": seed}})
